@@ -33,6 +33,8 @@ static long long vs_now_ns()
 #include <ompl/base/spaces/RealVectorStateSpace.h>
 #include <ompl/datastructures/NearestNeighborsGNAT.h>
 #include <ompl/geometric/PathGeometric.h>
+#include <ompl/base/goals/GoalLazySamples.h>
+#include <ompl/geometric/planners/rrt/RRT.h>
 #include <ompl/geometric/planners/rrt/pRRT.h>
 #include <ompl/geometric/planners/sbl/pSBL.h>
 #include <ompl/geometric/planners/cforest/CForest.h>
@@ -577,6 +579,97 @@ static void scCosts(const std::string &planner, const std::string &map, int sw, 
     P.reset();
 }
 
+// ------------------------------------------------------------------ GoalLazySamples: the goal-sampling thread against its readers
+static void scGoalLazy(bool withPlanner, tse::Out &out)
+{
+    vw::Cfg c;
+    c.planner = "RRT";
+    c.map = "wallgap4";
+    c.budget = 40;
+    std::unique_ptr<vw::Problem> P = std::make_unique<vw::Problem>(c);
+    auto &sp = P->space;
+    std::atomic<int> produced{0};
+    // candidates: two valid goal states, one inside the wall (must be rejected), one duplicate (must be rejected by minDist)
+    const double cand[5][2] = {{0.763, 3.757}, {1.5, 1.5}, {2.763, 3.257}, {0.763, 3.757}, {3.3, 2.6}};
+    auto fn = [&produced, &cand, &sp](const ob::GoalLazySamples *, ob::State *s) {
+        int k = produced++;
+        if (k >= 5)
+            return false;
+        vw::setXY(sp.get(), s, cand[k][0], cand[k][1], 0.3);
+        return true;
+    };
+    auto goal = std::make_shared<ob::GoalLazySamples>(P->si, fn, false, 1e-3);
+    goal->setThreshold(0.3);
+    std::string obs;
+    auto isCandidate = [&](const ob::State *s) {
+        double x, y;
+        vw::xy(sp.get(), s, x, y);
+        for (auto &k : cand)
+            if (std::fabs(x - k[0]) < 1e-12 && std::fabs(y - k[1]) < 1e-12)
+                return true;
+        return false;
+    };
+    if (!withPlanner)
+    {
+        goal->startSampling();
+        ob::State *tmp = sp->allocState();
+        size_t seen = 0;
+        for (int i = 0; i < 3; ++i)
+        {
+            size_t n = goal->getStateCount();
+            if (n < seen)
+                out.fail("C19|planner|goal-lazy|count-shrinks", "getStateCount() went from " + std::to_string(seen) + " to " + std::to_string(n) + " while sampling");
+            seen = n;
+            if (goal->hasStates())
+            {
+                goal->sampleGoal(tmp);
+                if (!isCandidate(tmp) || !P->isValid(tmp))
+                    out.fail("C19|planner|goal-lazy|bad-sample", "sampleGoal() returned " + vo::sstr(sp.get(), tmp) + " which is not a valid candidate produced by the sampling function");
+            }
+            (void)goal->couldSample();
+            (void)goal->maxSampleCount();
+        }
+        goal->stopSampling();
+        if (goal->isSampling())
+            out.fail("C19|planner|goal-lazy|still-sampling", "isSampling() after stopSampling()");
+        size_t n = goal->getStateCount();
+        if (n < seen || n > 3)
+            out.fail("C19|planner|goal-lazy|final-count", "after stopSampling() the goal holds " + std::to_string(n) + " states (seen " + std::to_string(seen) + " before; at most 3 distinct valid candidates exist)");
+        for (size_t i = 0; i < n; ++i)
+            if (!isCandidate(goal->getState(i)) || !P->isValid(goal->getState(i)))
+                out.fail("C19|planner|goal-lazy|bad-state", "goal state " + std::to_string(i) + " is not a valid candidate");
+        if (produced.load() >= 6 && n != 3)
+            out.fail("C19|planner|goal-lazy|lost-state", "the sampling function ran to completion but the goal holds " + std::to_string(n) + " of the 3 distinct valid candidates");
+        obs = "n=" + std::to_string(n) + " produced=" + std::to_string(std::min(produced.load(), 6));
+        sp->freeState(tmp);
+    }
+    else
+    {
+        P->pdef->setGoal(goal);
+        auto pl = std::make_shared<og::RRT>(P->si);
+        pl->setProblemDefinition(P->pdef);
+        pl->setup();
+        goal->startSampling();
+        std::atomic<long> calls{0};
+        int budget = c.budget;
+        ob::PlannerTerminationCondition ptc([&calls, budget] { return ++calls > budget; });
+        ob::PlannerStatus st = pl->solve(ptc);
+        goal->stopSampling();
+        P->planner = pl;
+        auto fail = [&](const std::string &k, const std::string &w) { out.fail(k.substr(0, 4) == "C01|" ? "C19|planner|goal-lazy-rrt|" + k.substr(4) : k, w); };
+        vo::checkStatus(*P, st, 0, "RRT", fail);
+        for (auto &sol : P->pdef->getSolutions())
+            vo::checkSolution(*P, sol, vpl::EXACT_EDGES, "RRT", fail);
+        obs = st.asString() + " sols=" + std::to_string(P->pdef->getSolutionCount()) + " goals=" + std::to_string(goal->getStateCount());
+        pl.reset();
+        P->planner.reset();
+    }
+    out.obs = obs;
+    P->pdef->clearGoal();
+    goal.reset();
+    P.reset();
+}
+
 struct Scenario
 {
     std::string name;
@@ -745,6 +838,8 @@ static std::vector<Scenario> scenarios()
         {"CForest-empty", [](tse::Out &o) { scPlanner("CForest-empty", o); }, false, 1, 1, 3000},
         {"PRM-wall", [](tse::Out &o) { scPlanner("PRM-wall", o); }, false, 1, 1, 3000},
         {"APS-wall", [](tse::Out &o) { scPlanner("APS-wall", o); }, false, 1, 1, 3000},
+        {"goal-lazy", [](tse::Out &o) { scGoalLazy(false, o); }, false, 2, 3, 20000},
+        {"goal-lazy-rrt", [](tse::Out &o) { scGoalLazy(true, o); }, false, 1, 2, 4000},
     };
 }
 #endif
